@@ -410,6 +410,9 @@ func runParent(e Engine, seed uint64, tier, only string, inproc bool) int {
 			keys[k] = struct{}{}
 		}
 		for k, v := range r.Counters {
+			if strings.HasPrefix(k, "_") {
+				continue // private to the engine's Finish
+			}
 			counters[k] += v
 		}
 		if r.Sample != nil && len(samples) < 4 {
